@@ -9,27 +9,45 @@ from . import smt
 
 def check_obligation(ex, ob, timeout_ms=10000):
     """Returns (status, seconds, detail): status in proved | refuted | unknown."""
-    s = z3.Solver()
-    s.set("timeout", timeout_ms)
-    s.set("smt.mbqi", False)
-    s.add(*ex.axioms())
-    s.add(*ob.pc)
+    from .rewrite import HeapRewriter
+    rw = HeapRewriter(ob.pc, getattr(ex.model.decl, "REGION_ATTRS", []))
+    pc = [rw.rw(f) for f in ob.pc]
+    goal = rw.rw(ob.goal)
+    ax = ex.axioms()
     if ob.kind == "cover":
+        s = _solver(timeout_ms, fast=True)
+        s.add(*ax)
+        s.add(*pc)
         t0 = time.time()
         r = s.check()
         dt = time.time() - t0
         # with quantified axioms z3 cannot certify `sat`; the guard only fails on a definite `unsat`
         return ("refuted" if r == z3.unsat else "proved", dt, f"requires not contradictory ({r})")
-    s.add(z3.Not(ob.goal))
     t0 = time.time()
-    r = s.check()
+    last = None
+    for fast in (True, False):
+        s = _solver(2000 if fast else timeout_ms, fast)
+        s.add(*ax)
+        s.add(*pc)
+        s.add(z3.Not(goal))
+        r = s.check()
+        if r == z3.unsat:
+            return "proved", time.time() - t0, "z3 e-matching" + (" (fast cfg)" if fast else " (auto cfg)")
+        last = (r, s)
+    r, s = last
     dt = time.time() - t0
-    if r == z3.unsat:
-        return "proved", dt, ""
     if r == z3.sat:
-        m = s.model()
-        return "refuted", dt, model_summary(m)
+        return "refuted", dt, model_summary(s.model())
     return "unknown", dt, s.reason_unknown()
+
+
+def _solver(timeout_ms, fast):
+    s = z3.Solver()
+    s.set("timeout", timeout_ms)
+    s.set("smt.mbqi", False)
+    if fast:
+        s.set("smt.auto_config", False)
+    return s
 
 
 def model_summary(m, limit=40):
